@@ -545,6 +545,8 @@ class _Run:
                 continue
             if ref not in S:
                 H("schema-not-listed", schema=e)
+            if js != self.env["jsonschema"].get(e):
+                H("embedded-jsonschema-is-not-the-schema-of-the-object", schema=e)
             try:
                 pp = [ep(r.name, r.version) for r in S.parent_path(n, v)]
             except Exception as ex:  # noqa: BLE001
@@ -1268,3 +1270,177 @@ def _short(a, b):
         ks = [k for k in a if a[k] != b.get(k)][:3]
         return {k: a[k] for k in ks}
     return str(a)[:300]
+
+
+# --------------------------------------------------------------------------- per-property plumbing
+PARTS = {
+    # what is binding in the correspondence of each property (the rest is recorded only)
+    "C06": {"status", "dump", "caches"},
+    "C07": {"status", "obs"},
+    "C20": {"selfdesc"},
+}
+N_CASES = {"quick": 110, "thorough": 1500}
+
+
+def impl_for(pid, case):
+    r = impl(case)
+    r["oracle"] = [d for d in r["oracle"] if d.get("prop") == pid]
+    return r
+
+
+def cases_for(ctx, pid):
+    cases = core.load_corpus(pid)
+    n = N_CASES["quick" if ctx.quick else "thorough"]
+    for _ in range(n):
+        cases.append(gen_case(ctx.rng, quick=ctx.quick, held=True))
+    return cases
+
+
+def run_prop(ctx, pid, mod, rule_extra=""):
+    ctx.rule = ("cases: random container histories (create group/dataset, attach/delete metadata incl. refused requests: auxiliary, unknown, "
+                "duplicate, invalid, missing node; operations on one kept node.meta handle; delete node; copy with/without metadata, path or node "
+                "object as source, also into the own subtree; move; close/reopen; IH5 patch boundaries) on h5py.File and IH5Record, over the "
+                "installed schemas core.file/dir/bib/imagefile/table and a harness-registered family vt.* (11 schemas, 2 packages, several "
+                "versions, 3-level inheritance, auxiliary parent). After EVERY step: canonical raw dump, TOC cache observations (public API + "
+                "_toc_path), sampled get/query observations; compared with the Lean model `drv_ctr`. Non-trivial = tagged (copy/move/delete of "
+                "nodes with metadata, refused sets, record removal, reopen with metadata, queries answered by descendant schemas ...). " + rule_extra)
+    ctx.assumptions += [
+        "h5py / IH5 implement the flat tree semantics of Model/Container raw primitives (create with intermediate groups, delete subtree, "
+        "snapshot copy, move); compared after every step on both drivers (IH5 transparency itself is C01/C09)",
+        "uuid1() is fresh (modelled as a counter); uuids are compared up to renaming by first appearance",
+        "json.loads(json.dumps(x)) = x for compat lists and package infos; entry point names parse back (C16 epname_roundtrip)",
+        "schema environment (parent paths, providers, auxiliary flags) is read from the real plugin system on every run and passed to the model",
+    ]
+    get_envinfo()
+    cases = cases_for(ctx, pid)
+    ctx.correspond("container-model", mod, cases, lines, "drv_ctr", compare=compare_parts(PARTS[pid]), timeout=240)
+    ctx.dist["cases:h5"] = sum(1 for c in cases if c["driver"] == "h5")
+    ctx.dist["cases:ih5"] = sum(1 for c in cases if c["driver"] == "ih5")
+    for c in cases:
+        for op in c["ops"]:
+            ctx.dist["op:" + op[0]] += 1
+
+
+def signature(pid, case, detail):
+    return "%s:%s" % (pid, detail.get("kind") if isinstance(detail, dict) else str(detail)[:40])
+
+
+_SHRUNK = {}
+
+
+def ddmin_batch(items, fails_many, max_rounds=40):
+    """Delta debugging where all candidates of a round are evaluated in one parallel batch.
+    fails_many(list of sublists) -> list of bool."""
+    cur = list(items)
+    n = 2
+    rounds = 0
+    while len(cur) >= 2 and rounds < max_rounds:
+        rounds += 1
+        chunk = max(1, len(cur) // n)
+        subsets = [cur[i:i + chunk] for i in range(0, len(cur), chunk)]
+        comps = [[x for j, sub in enumerate(subsets) if j != i for x in sub] for i in range(len(subsets))]
+        comps = [c for c in comps if c]
+        res = fails_many(comps)
+        hit = [c for c, f in zip(comps, res) if f]
+        if hit:
+            cur = min(hit, key=len)
+            n = max(n - 1, 2)
+        else:
+            if n >= len(cur):
+                break
+            n = min(len(cur), n * 2)
+    return cur
+
+
+def shrink(ctx, pid, mod, case, detail):
+    from .. import pool
+
+    want = detail.get("kind") if isinstance(detail, dict) else None
+    if want in (None, "does-not-terminate") or len(case.get("ops", [])) < 2:
+        return case, detail
+    if (pid, want) in _SHRUNK:  # one minimised witness per kind of violation is enough
+        return _SHRUNK[(pid, want)]
+    pairs = list(zip(case["ops"], case.get("obs") or [[] for _ in case["ops"]]))
+
+    def mk(ps, keep_obs=True):
+        return dict(case, ops=[p[0] for p in ps], obs=[p[1] if keep_obs else [] for p in ps])
+
+    def hit(r):
+        return "ok" in r and any(d.get("kind") == want for d in r["ok"]["oracle"])
+
+    def fails_many(cands):
+        return [hit(r) for r in pool.run(mod, "impl", [mk(c) for c in cands], timeout=120, workers=min(8, len(cands)))]
+
+    ps = ddmin_batch(pairs, fails_many)
+    cands = [mk(ps, keep_obs=False), mk(ps)]
+    res = pool.run(mod, "impl", cands, timeout=120, workers=2)
+    out = (case, detail)
+    for c, r in zip(cands, res):
+        if hit(r):
+            out = (c, [d for d in r["ok"]["oracle"] if d.get("kind") == want][0])
+            break
+    out = (prune_insts(out[0]), out[1])
+    _SHRUNK[(pid, want)] = out
+    return out
+
+
+def prune_insts(case):
+    """Drop unused instances from a (minimised) case and renumber the rest."""
+    used = []
+
+    def subs(op):
+        if op[0] == "mset":
+            return [op]
+        if op[0] == "mseq":
+            return [x for x in op[2] if x[0] == "set"]
+        return []
+
+    for op in case["ops"]:
+        for x in subs(op):
+            i = x[-1]
+            if i >= 0 and i not in used:
+                used.append(i)
+    ren = {i: k for k, i in enumerate(used)}
+    ops = json.loads(json.dumps(case["ops"]))
+    for op in ops:
+        for x in subs(op):
+            if x[-1] >= 0:
+                x[-1] = ren[x[-1]]
+    return dict(case, ops=ops, insts=[case["insts"][i] for i in used])
+
+
+def search(ctx, pid, mod):
+    """Failing-input search after a broken obligation / correspondence: more seeds, longer
+    histories, oracle only."""
+    from .. import pool
+
+    for k in range(1, 4):
+        sub = core.Ctx(pid, "quick" if k < 3 else "thorough", ctx.seed + 7919 * k)
+        cases = [gen_case(sub.rng, quick=(k < 3), held=True) for _ in range(150)]
+        res = pool.run(mod, "impl", cases, timeout=240)
+        ctx.search_log.append("seed %d: %d histories, oracle only" % (sub.seed, len(cases)))
+        for c, r in zip(cases, res):
+            if "ok" in r and r["ok"]["oracle"]:
+                return shrink(ctx, pid, mod, c, r["ok"]["oracle"][0])
+            if "timeout" in r:
+                return c, {"kind": "does-not-terminate"}
+    return None
+
+
+def replay(ctx, pid, mod, rep):
+    from .. import pool
+
+    case = rep.get("case")
+    if not case:
+        print(core.canon(rep)[:3000])
+        return 0
+    r = pool.run_one(mod, "impl", case, timeout=240)
+    if "ok" in r:
+        print("implementation: status/oracle:", [x for i, x in enumerate(r["ok"]["out"]) if i % 4 == 0], core.canon(r["ok"]["oracle"])[:3000])
+    else:
+        print("implementation:", core.canon(r)[:2000])
+    mo = lean.run_driver("drv_ctr", [lines(case)])[0][n_prefix():]
+    print("model: status:", [x for i, x in enumerate(mo) if i % 4 == 0])
+    if "ok" in r:
+        print("correspondence:", compare_parts(PARTS[pid])(case, r["ok"], lean.run_driver("drv_ctr", [lines(case)])[0]))
+    return 1 if ("ok" in r and r["ok"]["oracle"]) or "timeout" in r else 0
